@@ -7,9 +7,9 @@ EXTENDS BlobStore, TraceIO, Known_BlobStore
 
 VARIABLES l, subj, kf
 
-vars == <<live, issued, keyof, bykey, l, subj, kf>>
+vars == <<live, issued, keyof, bykey, lastd, l, subj, kf>>
 
-TraceInit == BSInit /\ l = 1 /\ subj = [subject |-> "none"] /\ kf = {}
+TraceInit == BSInit /\ lastd = Empty /\ l = 1 /\ subj = [subject |-> "none"] /\ kf = {}
 
 Step(e) ==
     \/ e.op = "put"        /\ e.ok  /\ Put(e.d, e.id)
@@ -26,7 +26,18 @@ Step(e) ==
     \/ e.op = "contains"   /\ Contains(e.id, e.r)
     \/ e.op = "size"       /\ Size(e.id, e.ok, e.r)
     \/ e.op = "len"        /\ Len_(e.r)
-    \/ e.op = "clear"      /\ Clear
+    \/ e.op = "clear"      /\ e.ok  /\ Clear
+    \/ e.op = "clear"      /\ ~e.ok /\ Same
+    \/ e.op = "maintenance" /\ Maintenance
+    \/ e.op = "iter_blobs" /\ IterBlobs(e.ok, e.r)
+    \/ e.op = "build_at"   /\ e.ok  /\ BuildAt(e.ids, e.ds) /\ e.len_after = Len(e.ds)
+    \/ e.op = "build_at"   /\ ~e.ok /\ BuildRefused(e.ds)
+    \/ e.op = "build_keyed" /\ e.ok  /\ BuildKeyed(e.ks, e.ds) /\ e.len_after = Len(e.ds)
+    \/ e.op = "build_keyed" /\ ~e.ok /\ BuildRefused(e.ds)
+    \/ e.op = "mixed_shape" /\ MixedShape(e.f, e.nf, e.nv, e.ids, e.isf)
+    \/ e.op = "put_batch_keys" /\ e.ok  /\ PutBatchWithKeys(e.ks, e.ds, e.ids)
+    \/ e.op = "put_batch_keys" /\ ~e.ok /\ PutBatchRefused(e.ds)
+    \/ e.op = "keys"       /\ ListKeys(e.p, e.ok, e.r)
     \/ e.op = "build"      /\ e.ok  /\ BuildFrom(e.ds) /\ e.len_after = Len(e.ds)
     \/ e.op = "build"      /\ ~e.ok /\ BuildRefused(e.ds)
     \/ e.op = "saveload"   /\ SaveLoad
@@ -43,8 +54,9 @@ TraceNext ==
     /\ LET e == Rec[l] IN
        IF e.op = "reset"
        THEN /\ live' = Empty /\ issued' = {} /\ keyof' = Empty /\ bykey' = Empty
-            /\ subj' = e /\ kf' = kf
+            /\ lastd' = Empty /\ subj' = e /\ kf' = kf
        ELSE /\ subj' = subj
+            /\ LastdNext(e)
             /\ IF UseKF /\ \E id \in KnownIds : DevApplies(id, e, subj)
                THEN \E id \in KnownIds : KnownDeviation(id, e, subj) /\ kf' = kf \cup {id}
                ELSE Step(e) /\ kf' = kf
